@@ -52,7 +52,7 @@ def mux_runs():
         run("run.mux.fmp4.video", 2, 0, 4, 5, std + ["init-after-change"], VKINDS=5),
         run("run.mux.ts.video", 1, 0, 5, 6, std, VKINDS=4),
         run("run.mux.ll.video", 3, 0, 3, 4, std, VKINDS=3),
-        run("run.mux.fmp4.video+audio", 2, 1, 4, 5, std, VKINDS=3),
+        run("run.mux.fmp4.video+audio", 2, 1, 5, 5, std, VKINDS=3),
         # window sliding several times, Directory storage, Close at the end: key frames only
         run("run.mux.ts.slide.disk", 1, 0, 6, 8, std, VKINDS=1, DISK=1, CLOSE_AT_END=1),
         run("run.mux.fmp4.slide.disk", 2, 0, 7, 10, std, VKINDS=1, DISK=1, CLOSE_AT_END=1),
@@ -455,6 +455,14 @@ for pid in ("C03", "C04", "C05", "C18"):
 CHECKS["C19"]["runs"] = CHECKS["C19"]["runs"] + [
     {"name": "run.ll.parts.boundary", "files": C19F, "fn": "VerifH_C19_run", "workers": 16,
      "params": {"GOPBASE": 15, "PMINMAX_MS": 150, "FRAMEIDX": 2, "PMIN_LO_NS": 116666640, "PMIN_HI_NS": 116666690, "K": 36}, "reach": ["non-final-part", "end"]}]
+
+# seeds of round 4: the delta-update view of the window under C04, the two-segment AbsoluteTime run under C09
+CHECKS["C04"]["runs"] = CHECKS["C04"]["runs"] + [dict([r for r in CHECKS["C06"]["runs"] if r["name"] == "step.delta"][0], prop="C06")]
+CHECKS["C09"]["runs"] = CHECKS["C09"]["runs"] + [dict([r for r in CHECKS["C10"]["runs"] if r["name"] == "run.cli.fmp4.abstime.2segs"][0], name="client.fmp4.abstime.2segs", prop="C10")]
+# three parts in one file (a middle part: offset > 0 and data after it), few operations
+CHECKS["C17"]["runs"] = CHECKS["C17"]["runs"] + [
+    {"name": "run.storage.equiv.3parts", "dir": "pkg/storage", "files": [S + "c17_storage.go", "rt/fs_model.go"], "fn": "VerifH_C17_storage", "workers": 16,
+     "params": {"MAXPARTS": 3, "OPS": 1, "OPS2": 1, "MAXW": 1, "MAXBUF": 1, "MINPARTS": 3, "OFFNEG": 1, "OFFPOS": 2}, "reach": ["end"], "budget_quick": 900, "budget_thorough": 7200}]
 
 # cheap lemma / step harnesses first: the driver stops at the first run with a confirmed violation
 for _pid in CHECKS:
